@@ -149,12 +149,14 @@ pub struct XEnc {
     pub empty_rows: bool,
     /// put sharedStrings/styles after the sheets in the archive
     pub reorder_members: bool,
+    /// relationship ids do not follow the sheet order (sheet i <-> rId(n+1-i)) and are listed in reverse
+    pub rid_shuffle: bool,
 }
 impl Default for XEnc {
     fn default() -> Self {
         XEnc {
             prefix: false, row_r: RMode::Explicit, cell_r: RMode::Explicit, dim: DimMode::Exact, target: TargetMode::Relative,
-            upper_parts: false, method: Method::Deflated, explicit_t_n: false, empty_rows: false, reorder_members: false,
+            upper_parts: false, method: Method::Deflated, explicit_t_n: false, empty_rows: false, reorder_members: false, rid_shuffle: false,
         }
     }
 }
@@ -368,7 +370,8 @@ pub fn workbook_xml(b: &XBook, enc: &XEnc) -> String {
     o.push_str(&format!("{}>", tg.o("sheets")));
     for (i, s) in b.sheets.iter().enumerate() {
         let st = s.state.map(|x| format!(" state=\"{x}\"")).unwrap_or_default();
-        o.push_str(&format!("{} name=\"{}\" sheetId=\"{}\"{} r:id=\"rId{}\"/>", tg.o("sheet"), esc(&s.name), i + 1, st, i + 1));
+        let rid = if enc.rid_shuffle { b.sheets.len() - i } else { i + 1 };
+        o.push_str(&format!("{} name=\"{}\" sheetId=\"{}\"{} r:id=\"rId{}\"/>", tg.o("sheet"), esc(&s.name), i + 1, st, rid));
     }
     o.push_str(&tg.c("sheets"));
     if !b.defined_names.is_empty() {
@@ -399,10 +402,13 @@ pub fn parts(b: &XBook, enc: &XEnc) -> Vec<(String, Vec<u8>)> {
     let mut rels = format!("<?xml version=\"1.0\" encoding=\"UTF-8\" standalone=\"yes\"?>\n<Relationships xmlns=\"{NS_PKG_REL}\">");
     let mut table_no = 0usize;
     let mut sheet_parts = vec![];
+    let mut sheet_rels: Vec<String> = vec![];
     for (i, s) in b.sheets.iter().enumerate() {
         let dir = sheet_dir(s.kind);
         let target = match enc.target { TargetMode::Relative => format!("{dir}/sheet{}.xml", i + 1), TargetMode::AbsoluteXl => format!("/xl/{dir}/sheet{}.xml", i + 1) };
-        rels.push_str(&format!("<Relationship Id=\"rId{}\" Type=\"{}\" Target=\"{}\"/>", i + 1, sheet_rel_type(s.kind), target));
+        let rid = if enc.rid_shuffle { b.sheets.len() - i } else { i + 1 };
+        let rel = format!("<Relationship Id=\"rId{}\" Type=\"{}\" Target=\"{}\"/>", rid, sheet_rel_type(s.kind), target);
+        if enc.rid_shuffle { sheet_rels.insert(0, rel); } else { sheet_rels.push(rel); }
         ct.push_str(&format!("<Override PartName=\"/xl/{dir}/sheet{}.xml\" ContentType=\"application/vnd.openxmlformats-officedocument.spreadsheetml.worksheet+xml\"/>", i + 1));
         let mut rids = vec![];
         if !s.tables.is_empty() {
@@ -419,6 +425,7 @@ pub fn parts(b: &XBook, enc: &XEnc) -> Vec<(String, Vec<u8>)> {
         }
         sheet_parts.push((format!("xl/{dir}/sheet{}.xml", i + 1), sheet_xml(s, enc, &rids)));
     }
+    for r in &sheet_rels { rels.push_str(r); }
     let n = b.sheets.len();
     let mut aux: Vec<(String, String)> = vec![];
     if !b.sst.is_empty() {
